@@ -263,7 +263,7 @@ func checkTranslateIndexedFields(c *Ctx, res *report.Result, f *ssa.Function) {
 	okRet := false
 	for _, b := range f.Blocks {
 		for _, ins := range b.Instrs {
-			if ret, ok := ins.(*ssa.Return); ok && ret.Results[0] == ssa.Value(mk) {
+			if ret, ok := ins.(*ssa.Return); ok && flow.Ret(ret)[0] == ssa.Value(mk) {
 				okRet = true
 			}
 		}
@@ -306,7 +306,7 @@ func checkSAMethodFilter(c *Ctx, res *report.Result, m *apiModel) {
 					if !isR {
 						continue
 					}
-					if u, isU := ret.Results[0].(*ssa.UnOp); isU && u.Op == token.NOT {
+					if u, isU := flow.Ret(ret)[0].(*ssa.UnOp); isU && u.Op == token.NOT {
 						if call, isC := u.X.(*ssa.Call); isC && flow.IsCallTo(&call.Call, "strings", "", "HasPrefix") {
 							if s, isS := flow.ConstString(call.Call.Args[1]); isS && s == wfP && call.Call.Args[0] == ssa.Value(cl.Params[0]) {
 								ok = true
